@@ -279,6 +279,10 @@ class _SplitFieldsTranslator(nodes.NodeVisitor):
             lineno: int
             ) -> None:
         field_doc = self.document.copy()
+        # Nodes that carry no line number of their own and have no parent that does
+        # (the type given in an item of a consolidated field) are reported at the
+        # line of the field instead of the first line of the docstring.
+        field_doc.line = lineno
         for child in fbody: 
             field_doc.append(child)
         field_parsed_doc = ParsedRstDocstring(field_doc, ())
